@@ -24,6 +24,9 @@ def run_extent(comp, sem, text):
                 break
         syms.append(cls)
     outcomes = []
+    kn = getattr(alg, 'KN', None)
+    if kn is not None:
+        syms = [kn] + syms
     # fail?
     q = F.start
     ok = True
@@ -40,7 +43,7 @@ def run_extent(comp, sem, text):
     for s in syms:
         q = None if q is None else C.delta[q].get(s)
         pre.append(q)
-    for n in range(len(syms) + 1):
+    for n in range(1 if kn is not None else 0, len(syms) + 1):
         q = pre[n]
         if q is None:
             break
@@ -50,7 +53,7 @@ def run_extent(comp, sem, text):
                 break
             q = C.delta[q].get(s)
         if q is not None and q in C.finals:
-            outcomes.append(n)
+            outcomes.append(n - (1 if kn is not None else 0))
     return outcomes
 
 
@@ -76,6 +79,11 @@ def sample_strings(comp, sem, rnd, count, maxlen=14):
             if not row or (q in C.finals and rnd.random() < 0.3):
                 break
             sym = rnd.choice(list(row))
+            if isinstance(sym, int) and sym in (getattr(comp.alg, 'KI', -1), getattr(comp.alg, 'KN', -1)):
+                if sym == getattr(comp.alg, 'KI', -1) and getattr(comp.alg, 'KN', -1) in row:
+                    sym = comp.alg.KN
+                q = row[sym]
+                continue
             if isinstance(sym, int):
                 if sym >= comp.nclasses:
                     break
